@@ -25,7 +25,7 @@ SPEC = {
     "C07": ("Kernel-checked: chance-sampled multi = single (shared with C06); external-sampled: pass = pure value + commuting increments, unique visit of every active infoset per pass under perfect recall (over workers and cached traversal together: no try_lock collision), cut lemma, frontier antichain, one draw per cell and pass, solve_ext_multi = solve_single for every oracle, target, schedule and reduction order. Correspondence under pinned draws (k threads vs 1 vs model), draw-event monitor.", "7 (C07)", "Atomics, Mutex and rayon are trusted. "),
     "C08": ("The Coq model is the executable specification; 29 kernel-checked theorems show its update rules mean what the "
             "documentation says (discount factors t^a/(t^a+1), averaging weights t^g, regret matching and its four fallbacks, order "
-            "of updates, presets); trajectory-level correspondence for every method under pinned draws decides agreement.", "7 (C08)",
+            "of updates, presets); trajectory-level correspondence for every method under pinned draws decides agreement. Round 3 (C08F.v): at binary64 itself the discount factor is exactly 0, 1/2, 1 for an exponent of -inf, 0, +inf at every iteration, and the presets are the documented tuples bit for bit.", "7 (C08)",
             "Agreement itself is differential (tolerance 1e-8, ill-conditioned cases detected by perturbation and not judged). "),
     "C09": ("Kernel-checked theorem that a thresholded run equals the unthresholded run of budget t* (first iteration whose bound "
             "satisfies the test), for every method/oracle/params/predicate; non-positive and NaN thresholds never stop; "
